@@ -114,6 +114,11 @@ def run (c : Case) : String :=
     | "FromChannel" =>
       let s := runFrom cap sub (valsOf raw) (c.getD "close" "1" == "1") cut
       s!"res {c.id} trace={renderTrace s.out} donecloses={s.doneCloses} leak={match s.cpc with | .exited => 0 | _ => 1}"
+    | "FromChannelBacklog" =>
+      -- a buffered channel with a long backlog whose consumer leaves after k values: the reader stops at its next `select`
+      -- (close(done) happens before the teardown returns; RoProps/C17 fromChannel_* : nothing is received once done is closed,
+      -- up to the receives the select had already committed to), so what it has not read stays in the channel for the next consumer
+      s!"res {c.id} backlog=kept"
     | "Collect" =>
       match c.getD "via" "-" with
       | "ObserveOn" =>
